@@ -1,4 +1,14 @@
 import PyodaProofs.C09
+import PyodaProofs.C09Instances
+import PyodaProofs.C09Generic
+import PyodaProofs.C09Between
+import PyodaProofs.C09DateTime
+import PyodaProofs.C09Badi
+import PyodaProofs.C09Hebrew
+import PyodaProofs.C09HebrewMonths
+import PyodaProofs.C09All
+import PyodaProofs.C09MonthStart
+import PyodaProofs.C09Maximal
 
 #print axioms Pyoda.C09.plusDays_exact
 #print axioms Pyoda.C09.plusWeeks_exact
@@ -29,3 +39,51 @@ import PyodaProofs.C09
 #print axioms Pyoda.C09.regular_gregorian
 #print axioms Pyoda.C09.regular_julian
 #print axioms Pyoda.C09.regular_coptic
+#print axioms Pyoda.C09.yearLen_islamic
+#print axioms Pyoda.C09.yearLen_persian
+#print axioms Pyoda.C09.yearLen_umAlQura
+#print axioms Pyoda.C09.yearLen_badi
+#print axioms Pyoda.C09.yearLenCheck_sound
+#print axioms Pyoda.C09.regular_islamic_all
+#print axioms Pyoda.C09.regular_persianSimple
+#print axioms Pyoda.C09.regular_persianArithmetic
+#print axioms Pyoda.C09.regular_persianAstronomical
+#print axioms Pyoda.C09.regular_umAlQura
+#print axioms Pyoda.C09.coarse_law_at
+#print axioms Pyoda.C09.yearsField_unit_of_setYear
+#print axioms Pyoda.C09.badi_monthsField_law
+#print axioms Pyoda.C09.badi_yearsField_law
+#print axioms Pyoda.C09.badi_addMonths_valid
+#print axioms Pyoda.C09.badi_setYear_valid
+#print axioms Pyoda.C09.dateLaws_regular
+#print axioms Pyoda.C09.betweenDates_laws
+#print axioms Pyoda.C09.betweenYearMonths_laws
+#print axioms Pyoda.C09.monthStart_regular
+#print axioms Pyoda.C09.adjustedEnd_spec
+#print axioms Pyoda.C09.betweenDateTimes_core
+#print axioms Pyoda.C09.betweenDateTimes_laws
+#print axioms Pyoda.C09.hebSetYear_scr
+#print axioms Pyoda.C09.heb_setYear_valid
+#print axioms Pyoda.C09.heb_yearsField_law
+#print axioms Pyoda.C09.heb_addMonths_spec
+#print axioms Pyoda.C09.heb_addMonths_valid
+#print axioms Pyoda.C09.heb_probe_spec
+#print axioms Pyoda.C09.heb_estimate_close
+#print axioms Pyoda.C09.heb_monthsBetween_value
+#print axioms Pyoda.C09.heb_months_law_max
+#print axioms Pyoda.C09.heb_monthsField_law
+#print axioms Pyoda.C09.dateLaws_hebrew
+#print axioms Pyoda.C09.dateLaws_badi
+#print axioms Pyoda.C09.dateLaws_all
+#print axioms Pyoda.C09.between_dates_all
+#print axioms Pyoda.C09.plusDays_exact_all
+#print axioms Pyoda.C09.plusMonths_valid_all
+#print axioms Pyoda.C09.plusYears_valid_all
+#print axioms Pyoda.C09.monthStart_badi
+#print axioms Pyoda.C09.monthStart_hebrew
+#print axioms Pyoda.C09.monthStart_all
+#print axioms Pyoda.C09.coarse_max_at
+#print axioms Pyoda.C09.yearsBetween_maximal_hebrew
+#print axioms Pyoda.C09.yearsBetween_maximal_badi
+#print axioms Pyoda.C09.badi_addMonths_key
+#print axioms Pyoda.C09.monthsBetween_maximal_badi
